@@ -141,8 +141,19 @@ def work(a):
                     faults.append(("truncate", r.choice([1, len(blob) // 3, len(blob) // 2, len(blob) - 9, len(blob) - 1, r.randrange(1, len(blob))])))
                 for _ in range(3):
                     faults.append(("flip", r.randrange(min(40, len(blob) - 1), len(blob))))
+                if codec == "gzip":
+                    # a complete member followed by a member that is cut right behind a sync flush placed on an entry boundary: everything
+                    # decoded so far is a well-formed shorter archive, only the missing end-of-stream marker says that input is missing
+                    offs = sorted(set(m[0] for m in tarmodel.walk(data)) - {0})
+                    if len(offs) >= 2:
+                        e1, e2 = sorted(r.sample(offs, 2))
+                        co = zlib.compressobj(6, zlib.DEFLATED, 31)
+                        part = co.compress(data[e1:e2]) + co.flush(zlib.Z_SYNC_FLUSH)
+                        faults.append(("flushcut", gzip.compress(data[:e1], 6, mtime=0) + part))
                 for kind, pos in faults:
-                    if kind == "truncate":
+                    if kind == "flushcut":
+                        bad, pos = pos, len(pos)
+                    elif kind == "truncate":
                         bad = blob[:pos]
                     else:
                         bad = bytearray(blob)
@@ -157,7 +168,7 @@ def work(a):
                     o = t2s(bdir, s, "bad.z", "seed 1\nsched rr\n", "asan", cpu=15)
                     res["runs"] += 1
                     res["must_error"] += 1
-                    desc = "%s stream %s at byte %d of %d" % (codec, "cut" if kind == "truncate" else "bit-flipped", pos, len(blob))
+                    desc = "%s stream %s at byte %d of %d" % (codec, {"truncate": "cut", "flushcut": "of two members, the second cut behind a sync flush on an entry boundary,"}.get(kind, "bit-flipped"), pos, len(blob))
                     if o.timeout:
                         V("tar2sqfs:%s:%s:hang" % (codec, kind), desc + ": no termination within the CPU limit", kind="must-error", codec=codec, fault=(kind, pos))
                     elif not o.verdict.startswith("exit:") or o.rc == 77 or o.rc >= 70:
